@@ -99,17 +99,18 @@ def runItem (recv : Val) (n : Nat) (flag : String) : String :=
   | some code => withSpec ("perr " ++ toString code) spec none
   | none => withSpec (outStr (valOut (itemAt (m := Res) (.ok recv) n) recv)) spec none
 
-def runTab (args : List Val) : String :=
-  match acceptTab (args.map Val.type) with
+def runTab (args : List Val) (flag : String := "") : String :=
+  match (if flag == "opaque" then acceptTab (args.map fun _ => Ty.none) else acceptTab (args.map Val.type)) with
   | some code => withSpec ("perr " ++ toString code) (Spec.specTab args) (KF.tabRegion args)
   | none =>
     let r := biTab (m := Res) (args.map fun v => Res.ok v)
     withSpec (resStr r) (Spec.specTab args) (KF.tabRegion args)
 
-def runTup (args : List Val) : String :=
-  match acceptTup (args.map Val.type) with
-  | some code => "model=perr " ++ toString code
-  | none => "model=" ++ resStr (biTup (m := Res) (args.map fun v => Res.ok v))
+def runTup (args : List Val) (flag : String := "") : String :=
+  let spec := Spec.specTup args
+  match (if flag == "opaque" then acceptTup (args.map fun _ => Ty.none) else acceptTup (args.map Val.type)) with
+  | some code => withSpec ("perr " ++ toString code) spec none
+  | none => withSpec (resStr (biTup (m := Res) (args.map fun v => Res.ok v))) spec (KF.tupRegion args)
 
 /-! operation sequences on one variable -/
 
@@ -188,19 +189,117 @@ def handleForall (tbl : Val) (dir : String) (op : String) (arg : Option Val) : S
   | .null _ => "model=ok "
   | _ => "bad-op"
 
+/-! the parse-time lock of forall: `lockp <tableV> [fa:<iter>:<target>]… [post:<k>] call <op> <root> <nchain> <argV>…`
+the program is `forall <iter> in <target> loop … r = <root>[.at(0)]^nchain.<op>(0?, args); … end loop;` with the call placed
+after the `k` innermost loops have been closed (their body is `x = 1;`). Symbols: t=0, u=1 (a copy of t), e=2, f=3.
+Answer: `model=accept | perr <code>` (the first compile error: dispatch, lock, arguments) `lr=<0|1>` (lockRefuses)
+`ls=<refused|accepted>` (lockStmt on the statement tree) `fl=<flags of t,u,e,f at the call>`. -/
+
+def symOf : String → Option Nat
+  | "t" => some 0 | "u" => some 1 | "e" => some 2 | "f" => some 3 | _ => none
+
+def parseFrames : List String → List (Nat × Nat) → Option (List (Nat × Nat) × List String)
+  | w :: rest, acc =>
+    match w.splitOn ":" with
+    | ["fa", i, t] =>
+      match symOf i, symOf t with
+      | some a, some b => parseFrames rest (acc ++ [(a, b)])
+      | _, _ => none
+    | _ => some (acc, w :: rest)
+  | [], acc => some (acc, [])
+
+def chainOf : Nat → RecvExp → RecvExp
+  | 0, e => e
+  | n + 1, e => chainOf n (.chain e)
+
+def chainTy : Nat → Ty → Ty
+  | 0, t => t
+  | n + 1, t => chainTy n (memberType .at t)
+
+/-- loops that are closed before the call (their body is `x = 1;`: no member call) -/
+def closedLoops : List (Nat × Nat) → LStmt
+  | [] => .loop 0 .other []
+  | [(i, t)] => .loop i (.var t) []
+  | (i, t) :: rest => .loop i (.var t) [closedLoops rest]
+
+/-- the statement tree: the frames as nested loops, the call after the `k` innermost ones -/
+def progOf : List (Nat × Nat) → Nat → LStmt → List LStmt
+  | [], _, call => [call]
+  | (i, t) :: rest, k, call =>
+    if rest.length < k then [closedLoops ((i, t) :: rest), call]
+    else [.loop i (.var t) (progOf rest k call)]
+
+def runLock (tv : Val) (frames : List (Nat × Nat)) (k : Nat) (opName : String) (root : Nat) (nchain : Nat) (args : List Val) : String :=
+  let fl0 : Nat → Bool := fun _ => false
+  let opened := frames.take (frames.length - k)
+  let closedFr := frames.drop (frames.length - k)
+  -- static types of the symbols: t, u have the table's type, an iterator the element type of its target
+  let tyOf : Nat → Ty := frames.foldl (fun ty (fr : Nat × Nat) => fun s => if s == fr.1 then (ty fr.2).levelDown else ty s)
+    (fun s => if s == 0 || s == 1 then tv.type else Ty.none)
+  let flOpen := opened.foldl (fun fl (fr : Nat × Nat) => forallEnter fr.1 (some fr.2) fl) fl0
+  let flCall := match closedFr with
+    | [] => flOpen
+    | _ => match lockStmt (closedLoops closedFr) flOpen with
+      | some fl' => fl'
+      | none => flOpen
+  let recv := chainOf nchain (.var root)
+  let recvTy := chainTy nchain (tyOf root)
+  let locked := recvLocked recv flCall
+  let op : Option MemberOp := if opName.startsWith "set@" then some .set else (Member.ofName opName).map MemberOp.m
+  match op with
+  | none => "bad-op"
+  | some o =>
+    let posTys : List Ty := match o with
+      | .m .at | .m .put | .m .insert | .m .delete => [Ty.int]
+      | _ => []
+    let argTys := posTys ++ args.map Val.type
+    let res : Option Nat := match o with
+      | .m m => acceptMember m recvTy argTys locked
+      | .set =>
+        let rank := (opName.drop 4).toString.toNat?.getD 0
+        let decl := if recvTy.major == .tup then declOfVal tv else []
+        acceptSet recvTy decl rank (match args with | a :: _ => a.type | [] => Ty.none) locked
+    let call := LStmt.call o recv
+    let prog : List LStmt := progOf frames k call
+    let ls := match lockBody prog fl0 with | none => "refused" | some _ => "accepted"
+    let b := fun (x : Bool) => if x then "1" else "0"
+    "model=" ++ (match res with | some c => "perr " ++ toString c | none => "accept")
+      ++ " lr=" ++ b (lockRefuses o recv flCall) ++ " ls=" ++ ls
+      ++ " fl=" ++ b (flCall 0) ++ b (flCall 1) ++ b (flCall 2) ++ b (flCall 3)
+
+def handleLock (ws : List String) : String :=
+  match ws with
+  | tvS :: rest =>
+    match parseVal tvS, parseFrames rest [] with
+    | some tv, some (frames, rest1) =>
+      let (k, rest2) : Nat × List String := match rest1 with
+        | w :: r => if w.startsWith "post:" then ((w.drop 5).toString.toNat?.getD 0, r) else (0, w :: r)
+        | [] => (0, [])
+      match rest2 with
+      | "call" :: opName :: rootS :: nS :: argWs =>
+        match symOf rootS, nS.toNat?, argWs.mapM parseVal with
+        | some root, some n, some args => runLock tv frames k opName root n args
+        | _, _, _ => "bad-op"
+      | _ => "bad-op"
+    | _, _ => "bad-op"
+  | [] => "bad-op"
+
 def handle (words : List String) : Option String :=
   match words with
+  | "lockp" :: rest => some (handleLock rest)
   | "mb" :: name :: rest =>
     let (ws, flag) := splitFlag rest
     match Member.ofName name, ws.mapM parseVal with
-    | some m, some (recv :: args) => some (runMember m recv args flag)
+    | some m, some (recv :: args) =>
+      -- `nc=1`: a value of the case is outside `Spec.canon` (the domain of the `*_refines` theorems): never expected
+      some (runMember m recv args flag ++ (if (recv :: args).all Spec.canon then "" else " nc=1"))
     | _, _ => some "bad-op"
   | "setitem" :: rest =>
     let (ws, flag) := splitFlag rest
     match ws with
     | [rv, n, av] =>
       match parseVal rv, n.toNat?, parseVal av with
-      | some recv, some k, some a => some (runSet recv k a flag)
+      | some recv, some k, some a => some (runSet recv k a flag ++ (if Spec.canon recv && Spec.canon a then "" else " nc=1"))
       | _, _, _ => some "bad-op"
     | _ => some "bad-op"
   | "item" :: rest =>
@@ -211,13 +310,15 @@ def handle (words : List String) : Option String :=
       | some recv, some k => some (runItem recv k flag)
       | _, _ => some "bad-op"
     | _ => some "bad-op"
-  | "bi" :: "tab" :: vs =>
+  | "bi" :: "tab" :: vs0 =>
+    let (vs, flag) := splitFlag vs0
     match vs.mapM parseVal with
-    | some args => some (runTab args)
+    | some args => some (runTab args flag)
     | none => some "bad-op"
-  | "bi" :: "tup" :: vs =>
+  | "bi" :: "tup" :: vs0 =>
+    let (vs, flag) := splitFlag vs0
     match vs.mapM parseVal with
-    | some args => some (runTup args)
+    | some args => some (runTup args flag)
     | none => some "bad-op"
   | "mseq" :: rv :: steps =>
     match parseVal rv, parseSteps (steps.length + 1) steps with
